@@ -42,8 +42,11 @@ ValOK(r, o) ==
 \* observations that the property says survive a round trip besides the value itself
 Scal(r) == [woff |-> r.woff, kxps |-> r.kxps, hips |-> r.hips, est |-> r.est, lb |-> r.lb, ub |-> r.ub, merged |-> r.merged]
 
+\* estimates and bounds are finite numbers; on an object restored from an image this is a C09 clause (restore, then continue)
+FinName(e) == IF Has(e, "restored") THEN "C09:restored-estimate-finite" ELSE "C06:estimate-finite"
 UpdScalars(e, o) ==
   /\ Chk("coupon-count", e.C = C(o))
+  /\ Chk(FinName(e), e.fin)
   /\ IconOK(o, e.est)
   \* C09: original and restored sketch fed the same items report the same estimate, bit for bit
   /\ (Has(e, "twin") => Chk("C09:continued-estimate", e.est = last[e.twin]))
@@ -70,6 +73,7 @@ TUpdateIgnored == IsEvent("UpdateIgnored") /\ LET e == Log[l] IN
              /\ UNCHANGED <<bl, icon>>
 TObs == IsEvent("Obs") /\ LET e == Log[l] IN
              /\ e.id \in Live
+             /\ Chk(FinName(e), e.r.fin)
              /\ ValOK(e.r, obj[e.id])
              /\ icon' = Learn(icon, obj[e.id], e.r.est)
              /\ UNCHANGED <<obj, uni, blob, bl, last>>
@@ -102,6 +106,7 @@ TDeser == IsEvent("Deser") /\ LET e == Log[l]  b == bl[e.blob] IN
              /\ DeserializeFrom(e.blob, e.dst)
              \* same coupon set, coupon count, lgK, merged form
              /\ ValOK(e.r, obj'[e.dst])
+             /\ Chk("C09:restored-estimate-finite", e.r.fin)
              /\ Chk("C09:window-offset", e.r.woff = b.scal.woff)
              /\ Chk("C09:estimator-state", e.r.kxps = b.scal.kxps /\ e.r.hips = b.scal.hips /\ e.r.est = b.scal.est)
              /\ Chk("C09:bounds", e.r.lb = b.scal.lb /\ e.r.ub = b.scal.ub)
